@@ -136,6 +136,8 @@ func checkC02(w *World, r *Report) {
 	c02Readonly(w, r, a, "C02.f", "f-readonly-classification")
 	applyLoopComplete(w, r, a, "C02.g", "g-every-operation-applied")
 	c01WriteKinds(w, r, a, "C02.h", "h-plain-write-operations")
+	// a predicate is looked up under its own key: the shared key buffer is empty at every encode
+	c12BufferReuse(w, r, "C02.i", "i-predicates-under-their-own-keys")
 }
 
 // findCompareSplit finds, in fn, the call of the compare helper, its boolean result and the If on it.
